@@ -202,7 +202,7 @@ func (e *env) keys(rng *rand.Rand, n int) {
 }
 
 func body(r *ev.Run) {
-	r.Rule("stores = seeded random histories (pairwise distinct merkle roots; forks at many heights, stale siblings at listed heights, orphans, reorganisations); per store: a complete walk for EVERY batch size 1..n+2 (n = longest-chain length), batchSize 0 (must answer 200 or 4xx), every stored merkle root as starting key (longest: the rest of the chain; stale/orphan: 409), unknown keys and near misses of stored roots - upper case, a digit cut or appended, leading zeros cut, 0x-prefixed, byte-reversed - (404), and walks interleaved with ingestion of 1-3 new tip headers between pages. evaluations = complete walks; distinct = (store index, batch size) walks; non-trivial = store has a stale or orphan header.")
+	r.Rule("stores = seeded random histories (pairwise distinct merkle roots; forks at many heights, stale siblings at listed heights, orphans, reorganisations); per store: a complete walk for EVERY batch size 1..n+2 (n = longest-chain length), batchSize 0 (must answer 200 or 4xx), every stored merkle root as starting key (longest: the rest of the chain; stale/orphan: 409), unknown keys and near misses of stored roots - upper case, a digit cut or appended, leading zeros cut, 0x-prefixed, byte-reversed - (404), walks with restarts of the service between pages, and walks interleaved with ingestion of 1-3 new tip headers between pages. evaluations = complete walks; distinct = (store index, batch size) walks; non-trivial = store has a stale or orphan header.")
 	r.Assume("merkle roots pairwise distinct (as the statement requires)", "interleaved ingestion only extends the tip", "SQLite only")
 	r.Require("complete_walks", 300)
 	r.Require("keys_non_longest_409", 20)
@@ -286,6 +286,20 @@ func body(r *ev.Run) {
 						e.extra = append(e.extra, h.Hex())
 						r.Count("interleaved_extensions", 1)
 					}
+				})
+			}
+			// the page key is all a client carries from one request to the next: the service may be restarted in between
+			if i%4 == 1 && !e.failed {
+				b := 1 + rng.Intn(3)
+				e.walk(b, "", 0, "across-restarts", func() {
+					if rng.Intn(3) != 0 {
+						return
+					}
+					if err := st.Restart(); err != nil {
+						e.violate("restart-failed", err.Error(), nil)
+						return
+					}
+					r.Count("restarts_between_pages", 1)
 				})
 			}
 			r.Count("stores", 1)
